@@ -11,7 +11,7 @@ TECHNIQUE = ("SMT (z3 QF_BV) over the Amaranth netlist IR of designs elaborated 
 TRUSTED = ["Amaranth 0.5 elaboration and NIR netlist construction", "vf/nir2smt.py translator (counterexamples replayed on amaranth.sim)",
            "vf/designgen.py oracle (conflicts / eligibility computed from the spec alone, less-demanding readings where the statement is silent)", "z3 5.1.0"]
 OUTSIDE_COMMON = ["designs outside the generator grammar (see vf/designgen.py docstring): more than 3 top-level transactions + nested ones, 5 methods, call depth > 3, "
-                  "control nesting > 2", "multi-module designs (all bodies live in one TModule)", "schedule_before(x, y) with x defined after y (rejected by a sanity check of the library)"]
+                  "control nesting > 2", "more than three TModules", "schedule_before(x, y) with x defined after y (rejected by a sanity check of the library)"]
 ASSUMES_COMMON = ["FSM state registers hold a declared state; round-robin grant registers are one-hot (proved inductive under C09)",
                   "every condition/selector/readiness/enable/argument/result is an independent free input"]
 
@@ -25,18 +25,20 @@ def batch_configs(tier, seed, quick_batches, thorough_batches, per_batch, opts, 
     return out
 
 
-def systematic_configs(schedulers=("eager",)):
-    from ..designgen import systematic_specs
+def _family(name):
+    from ..designgen import systematic_specs, systematic_relation_specs
 
-    n = len(systematic_specs())
-    return [dict(systematic=True, lo=lo, hi=min(lo + 12, n), scheduler=s) for s in schedulers for lo in range(0, n, 12)]
+    return systematic_relation_specs() if name == "relations" else systematic_specs()
+
+
+def systematic_configs(schedulers=("eager",), family="calls"):
+    n = len(_family(family))
+    return [dict(systematic=family, lo=lo, hi=min(lo + 12, n), scheduler=s) for s in schedulers for lo in range(0, n, 12)]
 
 
 def run_batch(cfg, ctx, props):
     if cfg.get("systematic"):
-        from ..designgen import systematic_specs
-
-        specs = systematic_specs()
+        specs = _family(cfg["systematic"])
         for i in range(cfg["lo"], cfg["hi"]):
             ctx.cfg = dict(cfg, index=i, spec=specs[i])
             r = check_design(specs[i], ctx, set(props), cfg["scheduler"])
